@@ -1,7 +1,7 @@
 """C09 -- brute-force solvers return the exact minimum and exactly the minimisers."""
 import itertools
 
-from .. import gen, ref
+from .. import core, gen, ref
 from .. import lib as L
 from ..ref import frac
 
@@ -24,7 +24,7 @@ def FLOORS(tier):
     f = {"ties>=2-minimisers": 300 if q else 10000, "constant-model": 40, "empty-model": 10, "nothing-valid": 100,
          "method-calls": 400 if q else 10000, "valid-predicate-calls": 10000 if q else 5 * 10 ** 5, "with-offset": 300,
          "method:PCBO-with-constraints": 20, "stale-model": 50, "huge-offset": 100, "valid-argument-omitted": 100,
-         "free-function-on-constrained-model": 15}
+         "free-function-on-constrained-model": 15, "typed-coefficients": 100, "second-call-after-result-edited": 300}
     for fn in FUNCS.values():
         f["fn:" + fn] = 200 if q else 8000
     for k in ("bool", "spin"):
@@ -62,6 +62,12 @@ def case(ctx, rng, idx):
     if terms and rng.random() < 0.08:
         terms[()] = terms.get((), 0) + rng.choice([2 ** 34, -2 ** 40, 2 ** 31 + 1])      # exact in floats, dwarfs every gap
         ctx.cat("huge-offset")
+    if terms and rng.random() < 0.08:
+        import numpy as np
+        from fractions import Fraction
+        conv = rng.choice([Fraction, np.float64, lambda v: np.int64(round(v) or 1)])
+        terms = {k: conv(v) for k, v in terms.items()}
+        ctx.cat("typed-coefficients")
     ctx.cat("type:" + tn)
     stale = False
     if tn == "dict":
@@ -213,6 +219,22 @@ def case(ctx, rng, idx):
             ctx.violation(tag + "all_solutions-wrong-set" + (":duplicates" if len(sols) != len(set(map(str, norm(sols)))) else ""),
                           "returned %d solutions %r, expected %d %r" % (len(sols), sols[:4], len(exp), exp[:4]), w)
             return
+    if not use_method and rng.random() < 0.2:
+        # the caller edits the solution(s) it got and solves the same model again
+        first = repr((obj, norm(sols)))
+        for sdict in sols:
+            core.scribble(sdict)
+        core.scribble(sol) if isinstance(sol, list) else None
+        fname2 = w["function"]
+        args2 = (m, alls) if w.get("valid") == "omitted" else (m, alls, valid)
+        ok2, res2 = ctx.call(fname2, getattr(L.utils, fname2), *args2, _w=w)
+        ctx.count("second-call-after-result-edited")
+        if ok2:
+            o2, s2 = res2
+            s2l = s2 if alls else [s2]
+            if repr((o2, norm(s2l))) != first:
+                ctx.violation("second-call-differs", "after the returned solutions were edited, solving the same model again gives %r (first %s)" % (res2, first[:300]), w)
+                return
     if len(tv) >= 2 and len(ok_set) >= 2:
         ctx.nontrivial((w.get("function", "method"), tn, sorted(snap.items(), key=repr), pk, alls, target if pk == "one" else kcard))
     ctx.sample({"type": tn, "terms": snap, "predicate": pk, "all_solutions": alls, "objective": None if obj == "n/a" else obj}, limit=3)
